@@ -351,7 +351,10 @@ def processBlock (F : Func) (summ : Summ) (onTrue : Bool) (instrs : List Instr) 
 
 /-- the leading phis of a block with their `i`-th edge. -/
 def phiPairs (i : Nat) : List Instr → List (Nat × Nat)
-  | .phi v es :: rest => (v, es.getD i 0) :: phiPairs i rest
+  | .phi v es :: rest =>
+    match es[i]? with
+    | some e => (v, e) :: phiPairs i rest
+    | none => phiPairs i rest      -- `instr.Edges[i]` out of range: the Go code panics
   | _ => []
 
 /-- `processPhis(b, i, s)`: all edge values are read first, then the phis are set. -/
